@@ -306,6 +306,27 @@ def run(ctx):
                 ctx.check((not const_style) or synthetic, "STYLE", "C05:STYLE-KEPT:%s" % g.npath.split("::")[-1], "scalar events keep the style of the text they carry (constant style only for the synthetic empty scalar)",
                           "%s builds a scalar event with the constant style %s around non-constant text (`%s`): the quoting / block style of the document's scalar is lost, so `!O \"null\"` becomes a null payload" % (g.npath, st.split("::")[-1], vl[:60]), config, ctx.where(g, b))
         ctx.floor("STYLE.scalar-event-sites", nsc, 5, config)
+        # ... and conversely a *synthetic* scalar — the empty text that stands for "no payload" / "empty document" — is the plain,
+        # untagged empty scalar, i.e. a null.  Given the style of some other scalar (the quoted name of a bare variant, say) it
+        # becomes the empty *string*: `- 'Text'` would read as Text("") instead of failing for a missing payload.
+        nsy = 0
+        for g in sorted(fx.fns.values(), key=lambda g: g.npath):
+            if not g.file.endswith(("src/de.rs", "src/live_events.rs", "src/lib.rs")) or g.d.get("impl_trait") == "std::clone::Clone":
+                continue
+            for b, i, adt, var, fl, ops, s_ in aggregates(g):
+                if adt != "de::Ev" or var != "Scalar":
+                    continue
+                with g.deep():
+                    st = render(g.sym_operand(s_["rv"]["ops"][fl.index("style")]))
+                    vl = render(g.sym_operand(s_["rv"]["ops"][fl.index("value")]))
+                    tg = render(g.sym_operand(s_["rv"]["ops"][fl.index("tag")])) if "tag" in fl else "tags::SfTag::None{}"
+                if vl not in ("std::borrow::Cow::Borrowed{''}", "into(new())", "std::borrow::Cow::Owned{new()}", "into('')"):
+                    continue
+                nsy += 1
+                ctx.check(st.startswith("saphyr_parser_bw::ScalarStyle::Plain") and tg.startswith(("tags::SfTag::None", "tags::SfTag::Null")), "STYLE", "C05:STYLE-KEPT:synthetic-is-plain-null:%s" % g.npath.split("::")[-1],
+                          "the synthetic empty scalar is plain and untagged or `!!null` (a null)",
+                          "%s builds the synthetic empty scalar with style `%s` / tag `%s`: unless it is the plain untagged empty scalar it is not a null — a quoted style makes it the empty string, so a missing payload is accepted as \"\"" % (g.npath, st[:50], tg[:40]), config, ctx.where(g, b))
+        ctx.floor("STYLE.synthetic-scalars", nsy, 1, config)
         # TAG-KEPT: likewise the tag.  A scalar event built around text of the document either keeps that scalar's own tag or has
         # none; a *constant* core tag put on it (`!!str` on the re-emitted payload of `!Variant payload`) changes what the text
         # is: a `!!str` scalar is never null, so `!O ~` would be Some("~") while `{O: ~}` is None.
